@@ -211,10 +211,12 @@ type linEnv struct {
 	decl func(f *types.Func) (*ast.FuncDecl, *types.Info)
 	// alias: inside a getter read through, the name of its receiver stands for this expression of the caller
 	alias map[string]string
+	// prefix distinguishes the atoms standing for the unknown locals of an inlined callee from the caller's
+	prefix string
 }
 
 func (e *linEnv) clone() *linEnv {
-	n := &linEnv{info: e.info, vars: map[types.Object]linForm{}, defs: e.defs, atoms: e.atoms, lens: e.lens, elems: map[string]linForm{}, decl: e.decl}
+	n := &linEnv{info: e.info, vars: map[types.Object]linForm{}, defs: e.defs, atoms: e.atoms, lens: e.lens, elems: map[string]linForm{}, decl: e.decl, alias: e.alias, prefix: e.prefix}
 	n.facts = append(linSys{}, e.facts...)
 	for k, v := range e.vars {
 		n.vars[k] = v
@@ -246,8 +248,8 @@ func (e *linEnv) form(x ast.Expr, depth int) (linForm, bool) {
 		}
 		if v, isVar := o.(*types.Var); isVar {
 			if b, ok := v.Type().Underlying().(*types.Basic); ok && b.Kind() == types.Bool {
-				e.atoms[t.Name] = true
-				return lfAtom(t.Name), true
+				e.atoms[e.prefix+t.Name] = true
+				return lfAtom(e.prefix + t.Name), true
 			}
 		}
 		if ds := e.defs[o]; len(ds) == 1 && ds[0] != nil && depth < 4 {
@@ -257,8 +259,8 @@ func (e *linEnv) form(x ast.Expr, depth int) (linForm, bool) {
 		}
 		if _, isVar := o.(*types.Var); isVar {
 			if b, ok := o.Type().Underlying().(*types.Basic); ok && b.Info()&types.IsInteger != 0 {
-				e.atoms[t.Name] = true
-				return lfAtom(t.Name), true
+				e.atoms[e.prefix+t.Name] = true
+				return lfAtom(e.prefix + t.Name), true
 			}
 		}
 	case *ast.SelectorExpr:
@@ -455,13 +457,54 @@ func linWalk(paths []linPath, list []ast.Stmt, visit func(p linPath, st ast.Stmt
 			for _, p := range paths {
 				visit(p, st)
 			}
+			if len(x.Rhs) == 1 && len(x.Lhs) >= 2 && (x.Tok == token.ASSIGN || x.Tok == token.DEFINE) {
+				if call, ok := ast.Unparen(x.Rhs[0]).(*ast.CallExpr); ok {
+					var out []linPath
+					inlined := true
+					for _, p := range paths {
+						rs, ok := linInline(p, call, len(x.Lhs), visit)
+						if !ok {
+							inlined = false
+							break
+						}
+						for _, r := range rs {
+							np := linPath{env: p.env.clone(), sys: r.sys}
+							np.env.facts = r.facts
+							for k, l := range x.Lhs {
+								id, ok := ast.Unparen(l).(*ast.Ident)
+								if !ok || id.Name == "_" {
+									continue
+								}
+								if o := np.env.info.ObjectOf(id); o != nil {
+									if r.ok[k] {
+										np.env.vars[o] = r.res[k]
+									} else {
+										a := np.env.prefix + o.Name() + "'" + itoaSigned(int64(x.Pos()))
+										np.env.atoms[a] = true
+										np.env.vars[o] = lfAtom(a)
+									}
+								}
+							}
+							out = append(out, np)
+						}
+					}
+					if inlined && len(out) > 0 {
+						paths = out
+						continue
+					}
+				}
+			}
 			for i := range paths {
 				p := &paths[i]
 				p.env.cur = p.sys
 				if len(x.Lhs) != len(x.Rhs) {
 					for _, l := range x.Lhs {
-						if id, ok := l.(*ast.Ident); ok {
-							delete(p.env.vars, p.env.info.ObjectOf(id))
+						if id, ok := l.(*ast.Ident); ok && id.Name != "_" {
+							if o := p.env.info.ObjectOf(id); o != nil {
+								a := p.env.prefix + o.Name() + "'" + itoaSigned(int64(x.Pos()))
+								p.env.atoms[a] = true
+								p.env.vars[o] = lfAtom(a)
+							}
 						}
 					}
 					continue
@@ -572,6 +615,61 @@ func linWalk(paths []linPath, list []ast.Stmt, visit func(p linPath, st ast.Stmt
 			paths = out
 		case *ast.BlockStmt:
 			paths = linWalk(paths, x.List, visit)
+		case *ast.SwitchStmt:
+			if x.Tag != nil {
+				for _, p := range paths {
+					visit(p, st)
+				}
+				continue
+			}
+			if x.Init != nil {
+				paths = linWalk(paths, []ast.Stmt{x.Init}, visit)
+			}
+			var out []linPath
+			clauseBody := func(b []ast.Stmt) []ast.Stmt {
+				if n := len(b); n > 0 {
+					if br, ok := b[n-1].(*ast.BranchStmt); ok && br.Tok == token.BREAK && br.Label == nil {
+						return b[:n-1]
+					}
+				}
+				return b
+			}
+			for _, p := range paths {
+				remaining := []linPath{p}
+				var deflt *ast.CaseClause
+				for _, cl := range x.Body.List {
+					cc := cl.(*ast.CaseClause)
+					if cc.List == nil {
+						deflt = cc
+						continue
+					}
+					for _, e := range cc.List {
+						var next []linPath
+						for _, r := range remaining {
+							r.env.cur = r.sys
+							for _, cs := range r.env.cond(e, false) {
+								np := linPath{env: r.env.clone(), sys: append(append(linSys{}, r.sys...), cs...)}
+								if !np.known().infeasible() {
+									out = append(out, linWalk([]linPath{np}, clauseBody(cc.Body), visit)...)
+								}
+							}
+							for _, cs := range r.env.cond(e, true) {
+								np := linPath{env: r.env.clone(), sys: append(append(linSys{}, r.sys...), cs...)}
+								if !np.known().infeasible() {
+									next = append(next, np)
+								}
+							}
+						}
+						remaining = next
+					}
+				}
+				if deflt != nil {
+					out = append(out, linWalk(remaining, clauseBody(deflt.Body), visit)...)
+				} else {
+					out = append(out, remaining...)
+				}
+			}
+			paths = out
 		case *ast.ReturnStmt:
 			for _, p := range paths {
 				visit(p, st)
@@ -735,4 +833,126 @@ func (e *linEnv) getter(call *ast.CallExpr) (ast.Expr, *types.Info, map[string]s
 		al[d.Recv.List[0].Names[0].Name] = recv
 	}
 	return r.Results[0], di, al
+}
+
+type linReturn struct {
+	sys   linSys
+	facts linSys
+	res   []linForm
+	ok    []bool
+}
+
+// linInline walks the body of a function of the module called with plain arguments and returns, for every path
+// reaching a return statement, the constraints of that path and the affine values of the results. Integer and boolean
+// parameters are bound to the values of the arguments, array parameters to the elements of the argument, the other
+// ones (records reached through selectors) are aliased to the argument's text. Unknown locals of the callee are atoms
+// of their own (prefix). ok=false when the callee cannot be read that way.
+func linInline(p linPath, call *ast.CallExpr, nres int, visit func(p linPath, st ast.Stmt)) ([]linReturn, bool) {
+	e := p.env
+	if e.decl == nil || len(e.prefix) > 40 {
+		return nil, false
+	}
+	var fn *types.Func
+	switch f := ast.Unparen(call.Fun).(type) {
+	case *ast.SelectorExpr:
+		fn, _ = e.info.ObjectOf(f.Sel).(*types.Func)
+	case *ast.Ident:
+		fn, _ = e.info.ObjectOf(f).(*types.Func)
+	}
+	if fn == nil {
+		return nil, false
+	}
+	d, di := e.decl(fn)
+	if d == nil || d.Body == nil || d.Type.Results == nil {
+		return nil, false
+	}
+	if sig, ok := fn.Type().(*types.Signature); !ok || sig.Results().Len() != nres || sig.Variadic() {
+		return nil, false
+	}
+	// only integer/boolean results are of interest; give up on callees that loop
+	loops := false
+	ast.Inspect(d.Body, func(n ast.Node) bool {
+		switch n.(type) {
+		case *ast.ForStmt, *ast.RangeStmt, *ast.GoStmt, *ast.SelectStmt:
+			loops = true
+		}
+		return true
+	})
+	if loops {
+		return nil, false
+	}
+	sub := &linEnv{info: di, vars: map[types.Object]linForm{}, defs: map[types.Object][]ast.Expr{}, atoms: e.atoms, lens: e.lens, elems: map[string]linForm{},
+		decl: e.decl, alias: map[string]string{}, prefix: e.prefix + fn.Name() + "@" + itoaSigned(int64(call.Pos())) + ":"}
+	sub.facts = append(linSys{}, e.facts...)
+	for k, v := range e.alias {
+		sub.alias[k] = v
+	}
+	e.cur = p.sys
+	params := flattenParams(d.Type.Params)
+	if len(params) != len(call.Args) {
+		return nil, false
+	}
+	for i, prm := range params {
+		if prm == nil {
+			continue
+		}
+		po := di.ObjectOf(prm)
+		arg := ast.Unparen(call.Args[i])
+		switch t := po.Type().Underlying().(type) {
+		case *types.Basic:
+			if t.Info()&types.IsInteger != 0 || t.Kind() == types.Bool {
+				if f, ok := e.form(arg, 0); ok {
+					sub.vars[po] = f
+				}
+			}
+		case *types.Array:
+			if id, ok := arg.(*ast.Ident); ok {
+				for k := int64(0); k < t.Len() && k < 16; k++ {
+					src := fmt.Sprintf("%s[%d]", id.Name, k)
+					f, ok := e.elems[src]
+					if !ok {
+						e.atoms[src] = true
+						f = lfAtom(src)
+					}
+					sub.elems[fmt.Sprintf("%s[%d]", prm.Name, k)] = f
+				}
+			}
+		default:
+			txt := types.ExprString(arg)
+			if id, ok := arg.(*ast.Ident); ok {
+				if a, ok := e.alias[id.Name]; ok {
+					txt = a
+				}
+			}
+			sub.alias[prm.Name] = txt
+		}
+	}
+	if d.Recv != nil && len(d.Recv.List) == 1 && len(d.Recv.List[0].Names) == 1 {
+		if sel, ok := ast.Unparen(call.Fun).(*ast.SelectorExpr); ok {
+			sub.alias[d.Recv.List[0].Names[0].Name] = types.ExprString(sel.X)
+		}
+	}
+	var out []linReturn
+	okAll := true
+	linWalk([]linPath{{env: sub, sys: append(linSys{}, p.sys...)}}, d.Body.List, func(q linPath, st ast.Stmt) {
+		r, isRet := st.(*ast.ReturnStmt)
+		if !isRet {
+			return
+		}
+		if len(r.Results) != nres {
+			okAll = false
+			return
+		}
+		q.env.cur = q.sys
+		lr := linReturn{sys: append(linSys{}, q.sys...), res: make([]linForm, nres), ok: make([]bool, nres)}
+		for k, re := range r.Results {
+			lr.res[k], lr.ok[k] = q.env.form(re, 0)
+		}
+		lr.facts = append(linSys{}, q.env.facts...)
+		out = append(out, lr)
+	})
+	if !okAll || len(out) == 0 {
+		return nil, false
+	}
+	return out, true
 }
